@@ -28,6 +28,18 @@ Proof.
   unfold Known_C15_ooo in Hk. destruct (sorted_ts h); congruence.
 Qed.
 
+(* Any arrival order, out-of-order included: the join never produces a wrong or spurious correlation -- whenever an
+   output is produced it is exactly the specified one (every source's most recently arrived same-key in-window event);
+   and add_event never panics.  Out-of-order histories can therefore only LOSE outputs (the known finding). *)
+Theorem C15_any_order_sound : forall c h,
+    valid c h ->
+    Forall2 (fun o sp => match o with
+                         | Out (Some ch) => sp = Some ch
+                         | Out None => True
+                         | Panicked => False
+                         end) (outputs c h) (spec_run c h).
+Proof. intros c h [Hcap Hsrc]. apply outputs_sound_any_order; assumption. Qed.
+
 (* What the specification function says, in the words of the property: an output is specified exactly when every
    joined source has an arrival with the same key whose timestamp is within the window of the arriving event. *)
 Theorem C15_spec_produces_iff : forall c past a k,
